@@ -228,7 +228,8 @@ func (c *httpClient) newRequest(ctx context.Context, body []byte) (request, erro
 	req := request{Request: r}
 
 	switch c.compression {
-	case NoCompression:
+	default:
+		// NoCompression, and any unknown value, sends the payload as is.
 		r.ContentLength = (int64)(len(body))
 		req.bodyReader = bodyReader(body)
 	case GzipCompression:
